@@ -17,7 +17,7 @@ ASSUMPTIONS = ["positive integer items", "bounds as listed in evidence.coverage.
 
 LONG = [((1, 2), 9, 24, 5), ((1, 2, 3), 9, 16, 7), ((2, 3, 5), 9, 14, 10), ((1, 4, 9), 9, 14, 8)]
 QUICK = [(6, 7), (10, 6), (12, 6)]
-THOROUGH = [(6, 9), (10, 8), (12, 7), (9, 8)]
+THOROUGH = [(6, 10), (10, 9), (12, 8), (9, 9), (15, 7), (20, 6)]
 
 
 def bounds(tier):
